@@ -431,6 +431,8 @@ class AsyncBaseClientOpenTelemetry:
             message_dict = json.loads(message)
         except json.JSONDecodeError as exc:
             raise GraphQLClientInvalidMessageFormat(message=message) from exc
+        if not isinstance(message_dict, dict):
+            raise GraphQLClientInvalidMessageFormat(message=message)
 
         type_ = message_dict.get("type")
         payload = message_dict.get("payload", {})
@@ -444,7 +446,7 @@ class AsyncBaseClientOpenTelemetry:
             )
 
         if type_ == GraphQLTransportWSMessageType.NEXT:
-            if "data" not in payload:
+            if not isinstance(payload, dict) or "data" not in payload:
                 raise GraphQLClientInvalidMessageFormat(message=message)
             return cast(Dict[str, Any], payload["data"])
 
@@ -666,6 +668,8 @@ class AsyncBaseClientOpenTelemetry:
                 message_dict = json.loads(message)
             except json.JSONDecodeError as exc:
                 raise GraphQLClientInvalidMessageFormat(message=message) from exc
+            if not isinstance(message_dict, dict):
+                raise GraphQLClientInvalidMessageFormat(message=message)
 
             type_ = message_dict.get("type")
             payload = message_dict.get("payload", {})
@@ -683,7 +687,7 @@ class AsyncBaseClientOpenTelemetry:
                 )
 
             if type_ == GraphQLTransportWSMessageType.NEXT:
-                if "data" not in payload:
+                if not isinstance(payload, dict) or "data" not in payload:
                     raise GraphQLClientInvalidMessageFormat(message=message)
                 return cast(Dict[str, Any], payload["data"])
 
